@@ -306,7 +306,9 @@ func (r *runner) opListOffsets(i int, o *op) {
 		exp1[target].anyErr = true
 	case "refuse":
 		for k := range exp {
-			if mp := r.m.part(k.t, k.p); mp != nil && mp.spec.Leader == tmp.spec.Leader {
+			// partitions without a live leader have no designated broker: their sub-request may be sent to any broker,
+			// the refused one included (the library picks node 0 for them), so nothing is claimed about them here
+			if mp := r.m.part(k.t, k.p); mp != nil && (mp.spec.Leader == tmp.spec.Leader || !r.m.alive(mp.spec.Leader)) {
 				faulted[k] = true
 				if exp1[k].err == nil {
 					exp1[k].anyErr = true
@@ -314,7 +316,7 @@ func (r *runner) opListOffsets(i int, o *op) {
 			}
 		}
 		if bootstrap == tmp.spec.Leader {
-			for id := int32(1); int(id) <= r.m.c.Brokers; id++ {
+			for _, id := range r.m.c.ids() {
 				if id != tmp.spec.Leader {
 					bootstrap = id
 					break
